@@ -85,17 +85,7 @@ Proof.
 Qed.
 
 (* the rule of C05 for a removal does not look at the CAS or the revision the removal got *)
-Lemma c05_delete_rule key pc x r c rv evs :
-  orow_ok (Some r) -> ocas_ok (Some r) ->
-  chk_row_C05 key pc x KDelete (Some (view_of_row r)) ROk evs
-    (Some (view_of_row (new_row None false c 0 (xattrs_system_only (r_xattrs r)) true rv))) = true.
-Proof.
-  intros Ho Hc.
-  pose proof (C05_row_sound key pc x c KDelete (Some r) I Ho Hc) as H. cbv zeta in H.
-  cbn [kstep do_remove with_resp kr_row kr_resp kr_events option_map] in H.
-  unfold chk_row_C05 in *. cbn [view_of_row new_row r_value r_cas r_exp r_xattrs r_rev r_isJSON r_tomb v_del v_body v_exp v_xattrs] in *.
-  exact H.
-Qed.
+
 
 
 
